@@ -16,7 +16,7 @@ import (
 func init() { Registry["C11"] = checkC11 }
 
 func checkC11(c *core.Ctx, l *core.Ledger) {
-	l.Explanation = "Static clauses of C11: (WALK-COMPLETE) for every concrete ast.Node type, visitChildren calls v.visit exactly once for every field (or, inside a loop over it, every element of a slice field) whose static type implements Node, passing the stack it received, and visits nothing else; visitor.visit returns on nil, asks the user's visitor with the stack of ancestors, then pushes the node before descending — together: every node reachable through Node-typed fields is visited exactly once with its true parent on top of the stack; (XOR) internal.Parse returns a program only under e==0 && !parseFailed and otherwise the zero result with lex.errors; parseFailed is set only by AppendError, which appends in the same straight-line block; the generated yyParse reaches `return 1` only after yylex.Error was called (abstract interpretation of the error-recovery flag over the generated parser's CFG); newParseError is nil iff the list is empty — hence never both, never neither; (POS-PAIR) every ast literal built by a grammar action takes Line and Column from the same position marker and every pos() accessor returns its own Line/Column; (POS-KEY) positions recorded in the side table must be keyed by nodes with identity (pointers or position-carrying values) — value-typed constants are not, which is recorded as a known finding. (POS-MARKER) for every use of a position or docstring marker in a grammar action, the goyacc tables in y.go are explored abstractly — reachable (state, lookahead-present) configurations of the LALR automaton on error-free input, reductions resolved through the reverse transition graph — to decide whether the marker's empty production is reduced after the next token was read (lexer.Pos() then describes the next token) or by default without lookahead (it describes the last shifted token); a marker followed by further symbols must describe the next token, a marker ending its production the token it follows. NOT decided: that the ragel scanner is total and tokenises faithfully, newline bookkeeping inside lex.go, docstring attachment, unquoting, literal values."
+	l.Explanation = "Static clauses of C11: (WALK-COMPLETE) for every concrete ast.Node type, visitChildren calls v.visit exactly once for every field (or, inside a loop over it, every element of a slice field) whose static type implements Node, passing the stack it received, and visits nothing else; visitor.visit returns on nil, asks the user's visitor with the stack of ancestors, then pushes the node before descending — together: every node reachable through Node-typed fields is visited exactly once with its true parent on top of the stack; (XOR) internal.Parse returns a program only under e==0 && !parseFailed and otherwise the zero result with lex.errors; parseFailed is set only by AppendError, which appends in the same straight-line block; the generated yyParse reaches `return 1` only after yylex.Error was called (abstract interpretation of the error-recovery flag over the generated parser's CFG); newParseError is nil iff the list is empty — hence never both, never neither; (POS-PAIR) every ast literal built by a grammar action takes Line and Column from the same position marker and every pos() accessor returns its own Line/Column; (POS-KEY) positions recorded in the side table must be keyed by nodes with identity (pointers or position-carrying values) — value-typed constants are not, which is recorded as a known finding. (POS-MARKER) for every use of a position or docstring marker in a grammar action, the goyacc tables in y.go are explored abstractly — reachable (state, lookahead-present) configurations of the LALR automaton on error-free input, reductions resolved through the reverse transition graph — to decide whether the marker's empty production is reduced after the next token was read (lexer.Pos() then describes the next token) or by default without lookahead (it describes the last shifted token); a marker followed by further symbols must describe the next token, a marker ending its production the token it follows. (LEX-NUM) every strconv.ParseInt in the scanner uses base 10, or 16 under the test for the 0x prefix, with 64 bits, and ParseFloat 64 bits. NOT decided: that the ragel scanner is total and tokenises faithfully, newline bookkeeping inside lex.go, docstring attachment, unquoting, literal values."
 	l.RuleText = "one obligation per node type / parse exit / literal / marker"
 	l.Assumptions = []string{"goyacc's driver code is as generated (its CFG is analysed, its tables are read from y.go)", "the ragel scanner sets ts to the start of the token it returns"}
 
@@ -25,6 +25,7 @@ func checkC11(c *core.Ctx, l *core.Ledger) {
 	checkPosPair(c, l)
 	checkPosKey(c, l)
 	checkPosMarkers(c, l)
+	checkLexNumbers(c, l)
 }
 
 // ---- WALK-COMPLETE -------------------------------------------------------------
@@ -874,4 +875,99 @@ func checkPosKey(c *core.Ctx, l *core.Ledger) {
 		}
 	}
 	l.Floor("POS-KEY", 4)
+}
+
+// checkLexNumbers: the scanner turns an integer token into its value with
+// strconv.ParseInt in base 10, or base 16 exactly when the text starts with
+// "0x" (the IDL has no octal or binary literals, so base 0/8/2 would give a
+// leading-zero decimal another value), with 64 bits; doubles with ParseFloat 64.
+func checkLexNumbers(c *core.Ctx, l *core.Ledger) {
+	f := c.SSAFunc(c.LookupFunc("idl/internal", "lexer.Lex"))
+	if f == nil {
+		l.Unk("LEX-NUM", "lexer.Lex", "", "not found")
+		return
+	}
+	var vals func(v ssa.Value, seen map[ssa.Value]bool) (map[int64]bool, bool)
+	vals = func(v ssa.Value, seen map[ssa.Value]bool) (map[int64]bool, bool) {
+		out := map[int64]bool{}
+		if seen[v] {
+			return out, true
+		}
+		seen[v] = true
+		switch x := v.(type) {
+		case *ssa.Const:
+			if x.Value == nil {
+				return nil, false
+			}
+			out[x.Int64()] = true
+			return out, true
+		case *ssa.Phi:
+			for _, e := range x.Edges {
+				s, ok := vals(e, seen)
+				if !ok {
+					return nil, false
+				}
+				for k := range s {
+					out[k] = true
+				}
+			}
+			return out, true
+		}
+		return nil, false
+	}
+	ni, nf := 0, 0
+	core.Instrs(f, func(in ssa.Instruction) {
+		call, ok := in.(*ssa.Call)
+		if !ok {
+			return
+		}
+		switch {
+		case core.IsCallTo(call, "strconv", "ParseInt"):
+			ni++
+			key := fmt.Sprintf("ParseInt#%d", ni)
+			base, okB := vals(call.Call.Args[1], map[ssa.Value]bool{})
+			bits, okS := vals(call.Call.Args[2], map[ssa.Value]bool{})
+			var why []string
+			if !okB {
+				why = append(why, "the base is not a choice between constants")
+			} else {
+				for b := range base {
+					if b != 10 && b != 16 {
+						why = append(why, fmt.Sprintf("base %d is used: the IDL has only decimal and 0x literals (base 0 reads a leading 0 as octal)", b))
+					}
+				}
+				if base[16] {
+					// base 16 only on the path where the text starts with "0x"
+					ph, isPhi := call.Call.Args[1].(*ssa.Phi)
+					okHex := false
+					if isPhi {
+						for i, e := range ph.Edges {
+							if k, isK := e.(*ssa.Const); isK && k.Int64() == 16 {
+								pred := ph.Block().Preds[i]
+								for _, s := range nestingConds(pred) {
+									if strings.Contains(s, `c:"0x"`) && !strings.HasPrefix(s, "!") {
+										okHex = true
+									}
+								}
+							}
+						}
+					}
+					if !okHex {
+						why = append(why, "base 16 is not selected by a test of the \"0x\" prefix")
+					}
+				} else if okB {
+					why = append(why, "hexadecimal literals are never parsed in base 16")
+				}
+			}
+			if !okS || len(bits) != 1 || !bits[64] {
+				why = append(why, "the integer is not parsed with 64 bits")
+			}
+			l.Check(len(why) == 0, "LEX-NUM", key, c.Rel(call.Pos()), "base 10, or 16 under the 0x-prefix test; 64 bits", strings.Join(uniq(why), "; "))
+		case core.IsCallTo(call, "strconv", "ParseFloat"):
+			nf++
+			bits, okS := vals(call.Call.Args[1], map[ssa.Value]bool{})
+			l.Check(okS && len(bits) == 1 && bits[64], "LEX-NUM", fmt.Sprintf("ParseFloat#%d", nf), c.Rel(call.Pos()), "doubles are parsed with 64 bits", "doubles are not parsed as float64")
+		}
+	})
+	l.Floor("LEX-NUM", 4)
 }
